@@ -14,18 +14,42 @@ pub mod conc {
         let a: CN = Node::new(Kt::of(1), 0);
         let b: CN = Node::new(Kt::of(2), 0);
         a.connect(&b, Et::of(5));
+        // "traversals": a third and a fourth node, a ring 1 -> 2 -> 3 -> 4 -> 1 that the writer never touches
+        let c3: CN = Node::new(Kt::of(3), 7);
+        let d4: CN = Node::new(Kt::of(4), -7);
+        if which == "traversals" {
+            b.connect(&c3, Et::of(6));
+            c3.connect(&d4, Et::of(7));
+            d4.connect(&a, Et::of(8));
+        }
+        let panicked = Arc::new(AtomicBool::new(false));
         let stop = Arc::new(AtomicBool::new(false));
         let progress: Vec<Arc<AtomicU64>> = (0..3).map(|_| Arc::new(AtomicU64::new(0))).collect();
         let mut handles = Vec::new();
         for t in 0..3usize {
             let (a, b) = (a.clone(), b.clone());
+            let (c3, d4) = (c3.clone(), d4.clone());
+            let panicked = panicked.clone();
             let stop = stop.clone();
             let prog = progress[t].clone();
             let which = which.to_string();
             handles.push(std::thread::spawn(move || {
                 let mut i = 0u64;
+                let r = std::panic::catch_unwind(std::panic::AssertUnwindSafe(|| {
                 while !stop.load(Ordering::Relaxed) {
                     match (which.as_str(), t) {
+                        // readers run every traversal entry point from two shared nodes while one writer adds and removes
+                        // chords (and parallel ring edges) between the nodes being traversed
+                        ("traversals", 0) => { traverse_all(&a); traverse_all(&c3); }
+                        ("traversals", 1) => { traverse_all(&b); traverse_all(&d4); query_all(&c3); }
+                        ("traversals", _) => {
+                            a.connect(&c3, Et::of(i));
+                            c3.connect(&b, Et::of(i));
+                            b.connect(&c3, Et::of(i + 1));
+                            let _ = a.disconnect(&Kt::of(3));
+                            let _ = c3.disconnect(&Kt::of(2));
+                            let _ = b.disconnect(&Kt::of(3));   // removes the OLDEST 2->3 edge: the ring keeps one
+                        }
                         // readers: the query under test
                         ("queries", 0) | ("queries", 1) => {
                             query_all(&a);
@@ -51,6 +75,8 @@ pub mod conc {
                     i += 1;
                     prog.store(i, Ordering::Relaxed);
                 }
+                }));
+                if r.is_err() { panicked.store(true, Ordering::Relaxed); }
             }));
         }
         let t0 = Instant::now();
@@ -87,6 +113,14 @@ pub mod conc {
                     let _ = h.join();
                 }
             }
+        }
+        if verdict == "ok" && panicked.load(Ordering::Relaxed) {
+            verdict = "panic: a thread panicked during the free-running run".to_string();
+        }
+        if verdict == "ok" {
+            // no lock may be left poisoned: every node still answers its queries
+            let r = std::panic::catch_unwind(std::panic::AssertUnwindSafe(|| { for n in [&a, &b, &c3, &d4] { query_all(n); } }));
+            if r.is_err() { verdict = "poisoned: a node no longer answers queries after the run".to_string(); }
         }
         // on a stall the threads are stuck: do not join (the process exits)
         verdict
